@@ -99,6 +99,11 @@ Cond_C07_RefEq == (IsBuildAny /\ "refEq" \in DOMAIN Ev) => Ev.refEq
 Cond_X_TrickleShape == (IsBuildAny /\ "trickleShape" \in DOMAIN Ev /\ Ev.n >= 0) =>
     Ev.trickleShape = PreArity(RefTrickle(Ev.n, Ev.w))
 
+\* beyond the listed properties: a source reader that fails (a non-EOF error, at any position, also in place of
+\* the final EOF) makes the file builder return an error and no link - never a link to a silently truncated file
+Cond_X_ReaderFailure == (IsBuildAny /\ "readFail" \in DOMAIN Ev /\ Ev.readFail >= 0) =>
+    (Ev.ret.e # "nil" /\ Ev.ret.link = 0)
+
 \* ---- C10 ----
 Cond_C10_Same == (IsBuildAny /\ Ev.ret.e = "nil") =>
     \A k \in 1 .. Len(first) : first[k][1] = Ev.input => (first[k][2] = Ev.root /\ first[k][3] = Ev.ret.size)
@@ -120,6 +125,7 @@ Inv_C07_RefShape == Chk("Inv_C07_RefShape", Cond_C07_RefShape)
 Inv_C07_RefEq == Chk("Inv_C07_RefEq", Cond_C07_RefEq)
 Inv_C10_Same == Chk("Inv_C10_Same", Cond_C10_Same)
 Inv_X_TrickleShape == Chk("Inv_X_TrickleShape", Cond_X_TrickleShape)
+Inv_X_ReaderFailure == Chk("Inv_X_ReaderFailure", Cond_X_ReaderFailure)
 Inv_C16_Big == Chk("Inv_C16_Big", Cond_C16_Big)
 Inv_C11_Big == Chk("Inv_C11_Big", Cond_C11_Big)
 Alias == [l |-> l]
